@@ -45,7 +45,12 @@ def run(chk, replay):
                        "of the node table through the history store is covered by C06/C08, parameters of the retried run by C11",
                        "theorems about the retry RUN (order, limit, accounting of reset steps, deadlock freedom, termination) hold for "
                        "steps without repeatPolicy (NoRep) and under the model's environment assumption that a running command ends"]
-    common.lean_obligations(chk, "BdModel/Props/C10.lean", TIE, extra_targets=["BdModel.Sched.Tables"])
+    common.lean_obligations(chk, "BdModel/Props/C10.lean", dict(TIE, Hist=None), extra_targets=["BdModel.Sched.Tables"])
+    import hist as _hist
+    if replay and "hist_case" in json.load(open(replay)).get("case", {}):
+        _hist.replay_big_record(chk, "C10", "a retry looks the recorded run up by request id and re-executes what that record says did not complete", json.load(open(replay))["case"]["hist_case"]); return
+    if not replay:
+        _hist.big_record_leg(chk, "C10", "a retry looks the recorded run up by request id and re-executes what that record says did not complete")
     binp, out = common.build_harness("sched")
     if not binp:
         chk.oblige("harness-build:sched", False, out[-3000:]); return
